@@ -377,9 +377,6 @@ func checkKeyidUnmarshal(c *Ctx, kid *types.Named) {
 		c.Unresolved("R3.gate", "the two json.Unmarshal calls (struct and map) in keyid.Unmarshal")
 		return
 	}
-	isDec := func(v ssa.Value) bool {
-		return w.canon(fn, v) == ssa.Value(dec) || (decVal != nil && throughCell(strip(v)) == decVal)
-	}
 	// the text is decoded into a zero KeyID: a field that the text leaves out or sets to null must not keep a default
 	// (json leaves such a field untouched), or a text without a usable version would decode as a supported one
 	{
@@ -434,6 +431,22 @@ func checkKeyidUnmarshal(c *Ctx, kid *types.Named) {
 			okLoop = true
 		}
 	}
+	// the loop written as a library search: slices.IndexFunc / ContainsFunc(requiredKeys, func(key) bool { _, ok := m[key]; return !ok })
+	var search *searchCall
+	if !okLoop {
+		for _, tf := range w.Tree(fn) {
+			for _, sc := range searchCallsIn(tf) {
+				if sc.pred == keyLookup.Parent() && w.SameValue(fn, sc.seq, reqKeys) && throughCell(strip(keyLookup.Index)) == ssa.Value(sc.pred.Params[0]) {
+					sc := sc
+					search = &sc
+				}
+			}
+		}
+	}
+	if search != nil {
+		c05SearchForm(c, w, fn, f, search, keyLookup, jStruct, jMap, dec, decVal, chk, reqKeys)
+		return
+	}
 	c.Check(okLoop, "R3.gate", "Unmarshal|every required key looked up", w.Pos(keyLookup.Pos()), "the lookup key ranges forward over the version's whole required-key list", "the per-key presence test does not range over the version's required-key list")
 	mapSame := false
 	if ld, ok := keyLookup.X.(*ssa.UnOp); ok {
@@ -468,6 +481,24 @@ func checkKeyidUnmarshal(c *Ctx, kid *types.Named) {
 			}
 		}
 	}
+	c05SuccessReturns(c, w, fn, f, jStruct, jMap, dec, decVal, chk, func(b *ssa.BasicBlock) bool {
+		return f.Any(b, func(l Lit) bool {
+			bin, ok := l.V.(*ssa.BinOp)
+			if !ok || bin.Op != token.LSS || l.Pol {
+				return false
+			}
+			la := lenArg(bin.Y)
+			return la != nil && w.SameValue(fn, la, reqKeys) && isForwardRangeIndex(bin.X)
+		})
+	})
+}
+
+// c05SuccessReturns: what every successful return of Unmarshal has established; done(b) tells whether the required-key
+// scan has certainly run to completion when block b is reached.
+func c05SuccessReturns(c *Ctx, w *World, fn *ssa.Function, f *Facts, jStruct, jMap *ssa.Call, dec *ssa.Alloc, decVal ssa.Value, chk *ssa.Call, doneAt func(*ssa.BasicBlock) bool) {
+	isDec := func(v ssa.Value) bool {
+		return w.canon(fn, v) == ssa.Value(dec) || (decVal != nil && throughCell(strip(v)) == decVal)
+	}
 	n := 0
 	for _, r := range w.MayBeNilReturns(fn) {
 		if fn.Recover != nil && r.Block() == fn.Recover {
@@ -485,14 +516,7 @@ func checkKeyidUnmarshal(c *Ctx, kid *types.Named) {
 		})
 		c.Check(okVer, "R3.gate", "Unmarshal|version supported", w.Pos(r.Pos()), "must-fact: required-key table has the decoded version", "Unmarshal can succeed for an unsupported version")
 		// loop exhausted
-		done := f.Any(b, func(l Lit) bool {
-			bin, ok := l.V.(*ssa.BinOp)
-			if !ok || bin.Op != token.LSS || l.Pol {
-				return false
-			}
-			la := lenArg(bin.Y)
-			return la != nil && w.SameValue(fn, la, reqKeys) && isForwardRangeIndex(bin.X)
-		})
+		done := doneAt(b)
 		c.Check(done, "R3.gate", "Unmarshal|required-key loop exhausted", w.Pos(r.Pos()), "must-fact: range over the required keys ran to completion", "Unmarshal can succeed before every required key was looked up (loop left early)")
 		okChk := false
 		if chk != nil && len(chk.Call.Args) == 1 && isDec(chk.Call.Args[0]) {
@@ -521,4 +545,94 @@ func extractOfV(v ssa.Value, idx int) ssa.Value {
 		}
 	}
 	return nil
+}
+
+// c05SearchForm: the required-key scan of Unmarshal written as a library search over the required-key list whose
+// predicate tests one key's presence in the decoded map.
+func c05SearchForm(c *Ctx, w *World, fn *ssa.Function, f *Facts, sc *searchCall, keyLookup *ssa.Lookup, jStruct, jMap *ssa.Call, dec *ssa.Alloc, decVal ssa.Value, chk *ssa.Call, reqKeys ssa.Value) {
+	c.Saw(sc.pred)
+	c.Ok("R3.gate", "Unmarshal|every required key looked up", w.Pos(keyLookup.Pos()), calleeName(sc.call)+" over the version's required-key list, the predicate looks its element up")
+	// the map looked into is the one decoded from the input
+	mapSame := false
+	if ld, ok := keyLookup.X.(*ssa.UnOp); ok {
+		if fv, isFV := ld.X.(*ssa.FreeVar); isFV {
+			mapSame = sc.binding(fv) == strip(jMap.Call.Args[1])
+		}
+	}
+	c.Check(mapSame, "R3.gate", "Unmarshal|presence tested in the decoded key map", w.Pos(keyLookup.Pos()), "lookup in the map decoded from the input", "the presence test does not look into the map decoded from the input")
+	// the predicate holds exactly for a missing key
+	pf := w.Facts(sc.pred)
+	okVal := extractOfV(keyLookup, 1)
+	okPred := okVal != nil
+	nPredRet := 0
+	for _, r := range liveReturns(sc.pred) {
+		nPredRet++
+		for _, lf := range w.Leaves(r.Results[0], r) {
+			v := throughCell(strip(lf.Val))
+			if u, ok := v.(*ssa.UnOp); ok && u.Op == token.NOT && throughCell(strip(u.X)) == okVal {
+				continue
+			}
+			if k, isK := v.(*ssa.Const); isK && okVal != nil {
+				present, known := pf.KnownBool(r.Block(), okVal)
+				for l := range lf.Facts {
+					if throughCell(strip(l.V)) == okVal {
+						present, known = l.Pol, true
+					}
+				}
+				if known && k.Value != nil && (k.Value.String() == "true") == !present {
+					continue
+				}
+			}
+			okPred = false
+		}
+	}
+	c.Check(okPred && nPredRet > 0, "R3.gate", "Unmarshal|search predicate = key is missing", w.FnPos(sc.pred), "returns !ok of the map lookup", "the search predicate is not 'this key is absent from the decoded map'")
+	// found (a missing key) => error; the failing region only returns
+	loopFn := sc.call.Parent()
+	lf := w.Facts(loopFn)
+	if loopFn != fn {
+		c.Check(w.failurePropagates(fn, loopFn), "R3.gate", "Unmarshal|missing key => error", w.FnPos(loopFn), "the error of "+shortFn(loopFn)+" ends Unmarshal with an error", "the error of the required-key helper does not make Unmarshal fail")
+	}
+	isFound := func(b *ssa.BasicBlock, want bool) bool {
+		return lf.Any(b, func(l Lit) bool { v, ok := sc.found(l); return ok && v == want })
+	}
+	nMiss := 0
+	for _, r := range liveReturns(loopFn) {
+		if !isFound(r.Block(), true) {
+			continue
+		}
+		nMiss++
+		good := true
+		for _, leaf := range w.Leaves(r.Results[len(r.Results)-1], r) {
+			if !w.NonNil(leaf.Val, leaf.Facts) {
+				good = false
+			}
+		}
+		c.Check(good, "R3.gate", "Unmarshal|missing key => error", w.Pos(r.Pos()), "non-nil error", "a missing required key does not produce an error")
+	}
+	c.Floor("R3.gate", nMiss, 1, "error return for a missing required key")
+	for _, b := range loopFn.Blocks {
+		if isFound(b, true) && !leadsOnlyToReturns(b, func(x *ssa.BasicBlock) bool { return isFound(x, true) }) {
+			c.Bad("R3.gate", "Unmarshal|missing key ends decoding", w.Pos(b.Instrs[0].Pos()), "after a missing required key the decoder goes on")
+		}
+	}
+	c05SuccessReturns(c, w, fn, f, jStruct, jMap, dec, decVal, chk, func(b *ssa.BasicBlock) bool {
+		if loopFn == fn {
+			return isFound(b, false)
+		}
+		// the scan runs in a helper: Unmarshal goes on only when the helper reported no missing key
+		return w.failurePropagates(fn, loopFn) && helperNotFoundOnSuccess(w, loopFn, sc, lf)
+	})
+}
+
+// helperNotFoundOnSuccess: every successful return of the helper that runs the search has the must-fact "not found".
+func helperNotFoundOnSuccess(w *World, h *ssa.Function, sc *searchCall, hf *Facts) bool {
+	n := 0
+	for _, r := range w.MayBeNilReturns(h) {
+		n++
+		if !hf.Any(r.Block(), func(l Lit) bool { v, ok := sc.found(l); return ok && !v }) {
+			return false
+		}
+	}
+	return n > 0
 }
